@@ -14,11 +14,13 @@ import (
 	"math/rand"
 	"os"
 	"reflect"
+	"runtime"
 	"sort"
 	"strings"
 	"sync"
 	"sync/atomic"
 	"time"
+	"unsafe"
 
 	"github.com/vimeo/dials"
 	"github.com/vimeo/dials/sources/static"
@@ -38,6 +40,7 @@ type Op struct {
 	Tok   string   `json:"tok,omitempty"`   // reg: last | zero
 	H     int      `json:"h,omitempty"`     // unreg: handle id (10*client + op index of its reg)
 	Block bool     `json:"block,omitempty"` // reg: the callback never returns (until teardown)
+	Ms    int      `json:"ms,omitempty"`    // spin: poll ViewVersion for this long, logging every distinct (config, serial) pair
 }
 
 type Scenario struct {
@@ -440,6 +443,31 @@ func (k *kernel) runProc(p string, ops []Op) {
 				k.cfgFields("cfg", c, m)
 				k.s.mu.Unlock()
 				k.s.Note(p, "view", append([]any{"n", i + 1, "serial", int(serialOf(tok))}, k.viewFields(m)...)...)
+			case "spin":
+				dl := time.Now().Add(time.Duration(op.Ms) * time.Millisecond)
+				var lastC *HCfg
+				lastS := ^uint64(0)
+				samples := 0
+				for !k.stop.Load() && (samples%64 != 0 || time.Now().Before(dl)) {
+					c, tok := k.d.ViewVersion()
+					sv := *(*uint64)(unsafe.Pointer(&tok))
+					samples++
+					if c != lastC || sv != lastS {
+						lastC, lastS = c, sv
+						m := map[string]any{}
+						k.s.mu.Lock()
+						k.cfgFields("cfg", c, m)
+						k.s.mu.Unlock()
+						k.s.Note(p, "view", append([]any{"n", i + 1, "serial", int(sv)}, k.viewFields(m)...)...)
+					}
+					if !k.s.gated.Load() && samples%256 == 0 {
+						runtime.Gosched()
+					}
+					if k.s.gated.Load() {
+						break
+					}
+				}
+				k.s.Note(p, "spun", "n", i+1, "samples", samples)
 			case "reg":
 				h := 10*ci + i + 1
 				tok := dials.CfgSerial[HCfg]{}
